@@ -1,8 +1,8 @@
 SPECIFICATION Spec
 CONSTANTS
-  DimLists <- AllQuick
+  DimLists <- AllTiny
   Seeds <- Seeds1
-  Variant = "code"
+  Variant = "prefix"
   AllowEmptyKeep = TRUE
 INVARIANT PtrShape
 CHECK_DEADLOCK FALSE
